@@ -257,6 +257,11 @@ def run(chk):
     for case in cases:
         m, items, cmd, data, ts = build(case)
         n = len(items)
+        if n == 0:
+            # nothing to regroup: the encoder (C06) produced no fragment at all for this message
+            chk.broke('precondition: the encoder produced no fragments', 'class %s, maximum length %d' % (
+                msgs.classes()[case['cls']].__name__, case['maxlen']), case)
+            continue
         if n <= nmax:
             groupings = list(compositions(n))
         else:
